@@ -9,10 +9,16 @@ class FakeTransport(object):
         self._stream = stream
         self.sent = 0
         self.received = 0
+        self.nonces = []        # nonce taken by every encryption
+        self.written = []       # nonces of the messages whose segment was accepted by the layers below
 
     def send(self, data):
+        # like consonance's transport: the cipher state advances (one nonce per message) BEFORE the segment is handed to the stream
+        n = self.sent
         self.sent += 1
+        self.nonces.append(n)
         self._stream.write_segment(b"\x01" + bytes(data))
+        self.written.append(n)
 
     def recv(self):
         d = self._stream.read_segment()
